@@ -33,7 +33,10 @@ META = {
 from engine import pipeline_harness as H
 from engine.core import digest
 
-OWN = 'P3'          # clause prefix this check alarms on; P4 clauses belong to C04
+# clause prefixes this check alarms on: the stack-discipline clauses, and the two clauses about handler calls as
+# part of the call sequence (a handler call missing from / extra in the sequence, or given another exception);
+# the remaining P4 clauses (status, body, headers) belong to C04 and are only noted here
+OWN = ('P3', 'P4:handler', 'P4:instance')
 
 
 def lifespan_legs(ctx):
@@ -118,6 +121,12 @@ def run(ctx):
     else:
         ctx.exhaustive = True
     H.replay_behaviours(ctx, OWN, behaviours, both=False, seen_other=seen_other, label='leg A (exhaustive export)')
+    # registration histories on one application object: a request raising T before and after every registration
+    # (direct class, nearer ancestor, same handler object again, tuple form), on both interfaces
+    rg = ctx.tlc('MC_PipelineS', ctx.pick('MC_PipelineS_G.cfg', 'MC_PipelineS_G2.cfg'), env=env, workers=4, timeout=600, count=False)
+    hist = list({digest(b): b for b in rg.json}.values())
+    ctx.extra['spec_registration_histories_exported'] = len(hist)
+    H.replay_behaviours(ctx, OWN, hist, both=ctx.quick, seen_other=seen_other, label='leg A (registration histories)')
     rs = ctx.tlc('MC_PipelineS', 'MC_PipelineS_Sim.cfg', env=env, simulate={'num': ctx.pick(60, 1500)}, depth=40,
                  seed=ctx.seed + 1, workers=4, timeout=600, count=False)
     deep = list({digest(b): b for b in rs.json}.values())
